@@ -181,6 +181,9 @@ func evalC17(t *testing.T, c *Case, st *Stats, relax Relax) *Violation {
 					if n.Sum != sumOf(m.Data.Bytes()) {
 						return mk("member-content-"+phase, fmt.Sprintf("%q: archived %s, read %s", p, sumOf(m.Data.Bytes()), n.Sum))
 					}
+					if n.Size != int64(m.Data.Len) {
+						return mk("member-size-"+phase, fmt.Sprintf("%q: archived with %d bytes (and reads back as such), Stat reports %d", p, m.Data.Len, n.Size))
+					}
 				}
 			}
 			for p, n := range obs {
